@@ -784,6 +784,69 @@ do_idn (long *v, int nv)
 }
 
 /* ------------------------------------------------------------------ */
+/* kinds 18 / 19: direction B - record what the code does on inputs that do not come from TLC (the
+ * repository's data files, mutations of them, seeded random and long strings).  [18, optbits, n, bytes..]
+ * an address: is_*_email in four modes x tld_check, the local-part scanners on L, is_ascii_domain on D;
+ * [19, optbits, n, bytes..] a local part.  Everything goes to trace.ndjson for Trace_Func. */
+static FILE *f_trace;
+static void
+trace_open (void)
+{
+    char path[600];
+    if (f_trace) return;
+    snprintf (path, sizeof path, "%s/trace.ndjson", outdir);
+    if (!(f_trace = fopen (path, "w"))) die ("open trace");
+}
+
+static void
+local_events (int ob, const long *b, int n)
+{
+    for (int m = 0; m < 4; m++) {
+        const char *p = place (b, n, m & 1, -1);
+        int rc = locals[m].f (p, p + n);
+        unplace ();
+        fprintf (f_trace, "{\"e\":\"local\",\"o\":%d,\"mode\":%d,\"in\":", ob, locals[m].mode);
+        put_bytes (f_trace, b, n);
+        fprintf (f_trace, ",\"rc\":%d}\n", rc);
+        cnt.calls++; cnt.checked++;
+    }
+}
+
+static void
+do_record (long *v, int nv, int local_only)
+{
+    int ob = (int) v[1], n = (int) v[2], at = -1;
+    const long *b = v + 3;
+    if (nv != 3 + n) die ("bad record vector");
+    trace_open ();
+    alarm (120);
+    if (local_only) { local_events (ob, b, n); alarm (0); return; }
+    for (int tld = 0; tld < 2; tld++) for (int m = 0; m < 4; m++) {
+        const char *p = place (b, n, (m + tld) & 1, -1);
+        eav_result_t *r = emails[m].f (p, n, tld);
+        int fl = (r->is_ipv4 ? 1 : 0) | (r->is_ipv6 ? 2 : 0) | (r->is_domain ? 4 : 0);
+        unplace ();
+        email_event (f_trace, ob, emails[m].mode, tld, b, n, r->rc, fl, r->idn_rc, 0, 0);
+        eav_result_free (r);
+        cnt.calls++; cnt.checked++;
+    }
+    for (int i = 0; i < n; i++) if (b[i] == '@') at = i;
+    if (at >= 0) {
+        local_events (ob, b, at);
+        if (at + 1 < n && b[at + 1] != '[') {
+            const char *p = place (b + at + 1, n - at - 1, 0, -1);
+            int rc = is_ascii_domain (p, p + (n - at - 1));
+            unplace ();
+            fprintf (f_trace, "{\"e\":\"host\",\"o\":%d,\"mode\":0,\"in\":", ob);
+            put_bytes (f_trace, b + at + 1, n - at - 1);
+            fprintf (f_trace, ",\"rc\":%d}\n", rc);
+            cnt.calls++; cnt.checked++;
+        }
+    }
+    alarm (0);
+}
+
+/* ------------------------------------------------------------------ */
 int
 main (int argc, char **argv)
 {
@@ -816,6 +879,8 @@ main (int argc, char **argv)
         case 15: do_table (); break;
         case 16: do_oracle (v, nv); break;
         case 17: do_idn (v, nv); break;
+        case 18: do_record (v, nv, 0); break;
+        case 19: do_record (v, nv, 1); break;
         case 14: do_robust (v, nv, 0); break;
         case 10: do_defaults (v, nv); break;
         case 11: do_policy_addr (v, nv); break;
@@ -823,6 +888,8 @@ main (int argc, char **argv)
         }
     }
     common_finish ();
+    if (f_trace) fclose (f_trace);
+    if (f_oracle) fclose (f_oracle);
     free (line);
     free (v);
     for (int i = 0; i < POOL_MAX; i++) free (pool_b[i]);
